@@ -1034,6 +1034,7 @@ func generate(prop, tier string, seed uint64) []string {
 		rep(400, func() { x.charinfoOp(x.recipe(x.g.intn(4))) })
 		rep(500, func() { x.wlgenOp("wlgen", "") })
 		rep(300, func() { x.wlgenOp("wlent", "") })
+		rep(15, func() { x.wlCellOps(600) })
 	case "C07":
 		rep(1200, func() { x.charinfoOp(x.recipe(3)) })
 		rep(400, func() { x.charinfoOp(x.recipe(0)) })
